@@ -342,6 +342,12 @@ def shared_source(args):
                 sl.run_session(cfgs[i], h2)
             finally:
                 shutil.rmtree(d2, ignore_errors=True)
+        if mode == 'rewritten_dir':
+            # the CSV files of this very directory held other prices when an earlier session ran in this process
+            m2 = other_market()
+            sl.write_market(d, m2)
+            h2, _ = sl.load_handler(d, m2)
+            sl.run_session(cfgs[i], h2)
         sl.write_market(d, market)
         handler, src = sl.load_handler(d, market)
         if mode == 'burst':
@@ -357,7 +363,8 @@ def shared_source(args):
         if got != want:
             viols.append({'clause': 'C18.depends_on_source_history', 'signature': '%s' % mode,
                           'detail': {'first': {'pair': cfgs[i]['name'], 'burst': 'burst of price queries',
-                                               'other_market': cfgs[i]['name'] + ' on another market'}[mode],
+                                               'other_market': cfgs[i]['name'] + ' on another market',
+                                               'rewritten_dir': cfgs[i]['name'] + ' on other prices in the same directory'}[mode],
                                      'second': cfgs[j]['name'], 'digest_in_pristine_process': want,
                                      'digest_after_history': got},
                           'case': {'kind': 'shared', 'i': i, 'j': j, 'mode': mode, 'want': want}})
@@ -455,6 +462,7 @@ def run(tier, res, is_known):
     pairs = [(i, j, 'pair', pristine[j]) for i in range(len(cfgs)) for j in range(len(cfgs))]
     pairs += [(0, j, 'burst', pristine[j]) for j in range(len(cfgs))]
     pairs += [(i, j, 'other_market', pristine[j]) for i in (0, 1, 3) for j in range(len(cfgs))]
+    pairs += [(i, j, 'rewritten_dir', pristine[j]) for i in (0, 1) for j in range(len(cfgs))]
     core.product(shared_source, pairs, res, is_known, label='shared source / process histories', chunk=1)
     if any(not is_known(v) for v in res.violations):
         return
